@@ -80,6 +80,8 @@ def cases(tier, seed=0):
   cs += _ea.shared_and_undeclared_cases('DL_POLY_EAM_fs', tier)
   cs += _ea.written_first_cases('DL_POLY_EAM', tier)
   cs += _ea.written_first_cases('DL_POLY_EAM_fs', tier)
+  cs += _ea.energy_override_cases('DL_POLY_EAM', tier)
+  cs += _ea.energy_override_cases('DL_POLY_EAM_fs', tier)
   return cs
 
 
